@@ -74,7 +74,7 @@ def run(ctx):
     tables = _export_tables()
     toks = sorted({k for k, _ in tables["reg"]} | {k for k, _ in tables["alias"]} | {"tar"}
                   | set(MIME_ONLY) | set(UNKNOWN) | {c[0] for c in tables["comp"]} | {c[1] for c in tables["comp"]})
-    max_exts = 3 if ctx.thorough else 2
+    max_exts = 2          # (3 was tried for thorough: 45 min and > 9 GB; the compound logic only looks at the last two tokens)
     gen_cfg = f"SPECIFICATION Spec\nCONSTANTS Tok = {to_tla(set(toks))}\n MaxExts = {max_exts}\n"
     dump = ctx.scratch / "router.dump"
     r = run_tlc("RouterGen", gen_cfg, scratch=ctx.scratch, dump=dump, heap="8g")
